@@ -1,7 +1,7 @@
 """Self-test (not a manifest command): apply each catalogued change to a scratch worktree of /repo and expect the
 check of the property it breaks to report VIOLATION.
 
-usage: ./check selftest [--tests] [--tier quick|thorough] [name-substring ...]
+usage: ./check selftest [--tests] [--tier quick|thorough] [--shard i/n] [name-substring ...]
 Catalogue: /verif/mutants/<PROP>-<name>.patch (own mutants) and /verif/seeded/<id>/patch.diff (+ meta.json).
 Scratch worktrees live under /tmp and are removed as soon as the check has run.
 """
@@ -40,10 +40,16 @@ def main(argv):
     tier = "quick"
     if "--tier" in argv:
         tier = argv[argv.index("--tier") + 1]
-    sel = [a for a in argv if not a.startswith("--") and a not in ("quick", "thorough")]
+    shard = None
+    if "--shard" in argv:                      # --shard i/n : every n-th catalogue entry, starting at i (for parallel runs)
+        i, n = argv[argv.index("--shard") + 1].split("/")
+        shard = (int(i), int(n))
+    sel = [a for a in argv if not a.startswith("--") and a not in ("quick", "thorough") and "/" not in a]
     rows = []
     bad = 0
-    for item in catalogue():
+    for k, item in enumerate(catalogue()):
+        if shard and k % shard[1] != shard[0]:
+            continue
         if sel and not any(s in item["name"] for s in sel):
             continue
         tmp = tempfile.mkdtemp(prefix="ecagent-selftest-", dir="/tmp")
